@@ -3,6 +3,7 @@
 # runs the quick check of the property it breaks, records the outcome in its meta.json and prints a table.
 set -u
 cd /verif
+find replays -name "*.json" -delete 2>/dev/null
 ids="${*:-$(ls seeded | grep -v '\.md$')}"
 for id in $ids; do
   d="seeded/$id"; [ -f "$d/patch.diff" ] || continue
